@@ -112,6 +112,9 @@ func main() {
 				for _, h := range an.AllLints(f) {
 					fmt.Printf("LINT %s %s %s\n", ctx.Position(h.Pos), h.Construct, h.Msg)
 				}
+				for _, se := range an.SwallowedErrors(f) {
+					fmt.Printf("SWALLOW %s %s returns nil while %s is non-nil\n", ctx.Position(se.Ret.Pos()), f.Name, se.Err.Name())
+				}
 				for _, sc := range an.SelfCopies(f) {
 					fmt.Printf("SELFCOPY %s %s %s mapped=%d missing=%v\n", ctx.Position(sc.Lit.Pos()), f.Name, sc.Type, sc.Mapped, sc.Missing)
 				}
